@@ -11,6 +11,7 @@ package service
 // producer cursor only grows, never more than `size` ahead of the consumer cursor, and bytes between the two cursors
 // are never overwritten.
 
+//@ property C02 roots (*service).processPublish, (*service).onPublish
 //@ property C17 roots (*service).writeMessage, (*stat).increment, (*buffer).WriteTo, (*buffer).ReadPeek, (*buffer).ReadCommit, (*buffer).ReadFrom
 //@ property C17 callers (*buffer).Write, (*buffer).WriteWait, (*buffer).WriteCommit
 //@ property C15 roots (*buffer).Close, (*buffer).Read, (*buffer).ReadPeek, (*buffer).ReadWait, (*buffer).ReadCommit, (*buffer).Write, (*buffer).WriteWait, (*buffer).WriteCommit, (*buffer).waitForWriteSpace, (*buffer).ReadFrom, (*buffer).WriteTo
@@ -366,6 +367,7 @@ func vspecCovered(x int64, start int64, c int64, size int64) bool {
 //@   atcall (*buffer).WriteCommit requires[C17:commit-what-was-encoded] n == gfield(0, "encn") && gfield(0, "encarr") == arr(bf.buf) && gfield(0, "encoff") == off(bf.buf)+int(bf.pseq.cursor&bf.mask)
 //@   atcall (*buffer).Write requires[C17:mutex] held(addr(svc.wmu))
 //@   atcall (*buffer).Write requires[C17:write-what-was-encoded] len(p) == gfield(0, "encn") && arr(p) == gfield(0, "encarr") && off(p) == gfield(0, "encoff")
+//@   ensures[inv] vdefOut(svc)
 //@   ensures[C17:none] svc.out == nil ==> err != nil
 //@   ensures[C17:count] err == nil ==> m == gfield(0, "encn")
 //@   ensures[ghostdef-log] gfield(svc, "n3") == old(gfield(svc, "n3")) + ite(err == nil && old(vdefWT(msg)) == 3, 1, 0) && gfield(svc, "id3") == ite(err == nil && old(vdefWT(msg)) == 3, old(vdefWID(msg)), old(gfield(svc, "id3")))
@@ -379,7 +381,8 @@ func vspecCovered(x int64, start int64, c int64, size int64) bool {
 //@   ensures[ghostdef-log] gfield(svc, "n11") == old(gfield(svc, "n11")) + ite(err == nil && old(vdefWT(msg)) == 11, 1, 0) && gfield(svc, "id11") == ite(err == nil && old(vdefWT(msg)) == 11, old(vdefWID(msg)), old(gfield(svc, "id11")))
 //@   ensures[ghostdef-log] gfield(svc, "n12") == old(gfield(svc, "n12")) + ite(err == nil && old(vdefWT(msg)) == 12, 1, 0) && gfield(svc, "id12") == ite(err == nil && old(vdefWT(msg)) == 12, old(vdefWID(msg)), old(gfield(svc, "id12")))
 //@   ensures[ghostdef-log] gfield(svc, "n13") == old(gfield(svc, "n13")) + ite(err == nil && old(vdefWT(msg)) == 13, 1, 0) && gfield(svc, "id13") == ite(err == nil && old(vdefWT(msg)) == 13, old(vdefWID(msg)), old(gfield(svc, "id13")))
-//@   modifies svc.out.pseq.gate, svc.out.pwait, svc.out.pseq.cursor, elems(svc.out.buf), gfield(svc.out.ccond, "bcast"), svc.outtmp, elems(svc.outtmp), fields(addr(svc.outStat)), ifaceval(msg, *message.header).remlen, ifaceval(msg, *message.header).dirty, ifaceval(msg, *message.header).packetID, message.gPacketID, heap("GF.encn"), heap("GF.encarr"), heap("GF.encoff"), heap("GF.encAt"), heap("GF.clock"), heap("GF.lockedAt"), gfield(addr(svc.wmu), "mlockedAt"), heap("GF.readAt"), heap("GF.doneAt"), heap("GF.doneSeen"), gfield(svc, "n3"), gfield(svc, "id3"), gfield(svc, "n4"), gfield(svc, "id4"), gfield(svc, "n5"), gfield(svc, "id5"), gfield(svc, "n6"), gfield(svc, "id6"), gfield(svc, "n7"), gfield(svc, "id7"), gfield(svc, "n8"), gfield(svc, "id8"), gfield(svc, "n9"), gfield(svc, "id9"), gfield(svc, "n10"), gfield(svc, "id10"), gfield(svc, "n11"), gfield(svc, "id11"), gfield(svc, "n12"), gfield(svc, "id12"), gfield(svc, "n13"), gfield(svc, "id13")
+//@   ensures[ghostdef-log] gfield(svc, "wfail") == old(gfield(svc, "wfail")) + ite(err != nil, 1, 0)
+//@   modifies svc.out.pseq.gate, svc.out.pwait, svc.out.pseq.cursor, elems(svc.out.buf), gfield(svc.out.ccond, "bcast"), svc.outtmp, elems(svc.outtmp), fields(addr(svc.outStat)), ifaceval(msg, *message.header).remlen, ifaceval(msg, *message.header).dirty, ifaceval(msg, *message.header).packetID, message.gPacketID, heap("GF.encn"), heap("GF.encarr"), heap("GF.encoff"), heap("GF.encAt"), heap("GF.clock"), heap("GF.lockedAt"), gfield(addr(svc.wmu), "mlockedAt"), heap("GF.readAt"), heap("GF.doneAt"), heap("GF.doneSeen"), gfield(svc, "n3"), gfield(svc, "id3"), gfield(svc, "n4"), gfield(svc, "id4"), gfield(svc, "n5"), gfield(svc, "id5"), gfield(svc, "n6"), gfield(svc, "id6"), gfield(svc, "n7"), gfield(svc, "id7"), gfield(svc, "n8"), gfield(svc, "id8"), gfield(svc, "n9"), gfield(svc, "id9"), gfield(svc, "n10"), gfield(svc, "id10"), gfield(svc, "n11"), gfield(svc, "id11"), gfield(svc, "n12"), gfield(svc, "id12"), gfield(svc, "n13"), gfield(svc, "id13"), gfield(svc, "wfail")
 
 // ================================================================ protocol handlers (service/process.go)
 // Assumed: the package-level logger is initialised (logging.Get never returns nil) and never reassigned.
@@ -406,7 +409,10 @@ func vspecCovered(x int64, start int64, c int64, size int64) bool {
 // queues, and toggles flag bits / assigns a packet id on the message it is given. It is a yield point: the rings
 // are subject to the caller's rely afterwards. Assumed (trusted_base): it sends no other packet type and does not
 // touch the incoming QoS 2 queue or the subscription ack queues of the calling connection.
-//@ modset Callback allfields(sessions.Ackqueue), allfields(sessions.AckMsg), allelems(sessions.AckMsg), allmaps(map[uint16]int64), heap("F.message.header.remlen"), heap("F.message.header.dirty"), heap("F.message.header.packetID"), allelems(byte), allfields(stat), heap("F.service.service.outtmp"), message.gPacketID, heap("GF.n3"), heap("GF.id3"), heap("GF.wfail"), heap("GF.ncb"), heap("GF.clock"), heap("GF.lockedAt"), heap("GF.mlockedAt"), heap("GF.readAt"), heap("GF.doneAt"), heap("GF.doneSeen"), heap("GF.bcast"), heap("GF.encn"), heap("GF.encarr"), heap("GF.encoff"), heap("GF.encAt"), heap("F.service.buffer.pwait"), heap("F.service.buffer.cwait"), allfields(sequence)
+//@ modset Callback allfields(sessions.Ackqueue), allfields(sessions.AckMsg), allelems(sessions.AckMsg), allmaps(map[uint16]int64), heap("F.message.header.remlen"), heap("F.message.header.dirty"), heap("F.message.header.packetID"), allelems(byte), allfields(stat), heap("F.service.service.outtmp"), message.gPacketID, heap("GF.n3"), heap("GF.id3"), heap("GF.wfail"), heap("GF.ncb"), heap("GF.nwait"), heap("GF.lastwait"), heap("GF.clock"), heap("GF.lockedAt"), heap("GF.mlockedAt"), heap("GF.readAt"), heap("GF.doneAt"), heap("GF.doneSeen"), heap("GF.bcast"), heap("GF.encn"), heap("GF.encarr"), heap("GF.encoff"), heap("GF.encAt"), heap("F.service.buffer.pwait"), heap("F.service.buffer.cwait"), allfields(sequence)
+
+// What writeMessage changes besides the ghost log (ring cursors and bytes, scratch buffer, statistics, ghost clock).
+//@ modset Out allfields(sequence), allfields(buffer), allelems(byte), allfields(stat), heap("F.service.service.outtmp"), heap("F.message.header.remlen"), heap("F.message.header.dirty"), heap("F.message.header.packetID"), message.gPacketID, heap("GF.wfail"), heap("GF.clock"), heap("GF.lockedAt"), heap("GF.mlockedAt"), heap("GF.readAt"), heap("GF.doneAt"), heap("GF.doneSeen"), heap("GF.bcast"), heap("GF.encn"), heap("GF.encarr"), heap("GF.encoff"), heap("GF.encAt")
 
 // The topic store (what Subscribe/Unsubscribe/Retain may change).
 //@ modset TopicStore allfields(topics.rnode), allfields(topics.snode), allfields(topics.MemTopics)
@@ -436,3 +442,27 @@ func vspecCovered(x int64, start int64, c int64, size int64) bool {
 //@   ensures[ghostdef-dlv] gfield(p, "ndlv") == old(gfield(p, "ndlv"))+1 && gfield(p, "lastdlv") == msg
 //@   ensures[C01:fanout] err == nil ==> gfield(0, "ncb") == old(gfield(0, "ncb"))+len(p.subs)
 //@   modifies modset(Callback), p.subs, p.qoss, capelems(p.subs), modset(TopicStore), gfield(p, "ndlv"), gfield(p, "lastdlv")
+
+
+// The state a connection's processor goroutine relies on between packets (set up by start, torn down only after the
+// processor has exited): its outgoing ring, topic store, session and the session's ack queues.
+//@ define vdefProc(p)
+//@   is vdefOut(p) && p.out != nil && arr(p.qoss) != arr(p.out.buf) && p.topicsMgr != nil && p.topicsMgr.p != nil && p.sess != nil
+
+//@ define vdefQ(aq)
+//@   is aq != nil && sessions.vdefAQ(aq) && aq.size <= 549755813888 && !held(addr(aq.mu))
+
+// processPublish (receiver side of QoS 0/1/2, C02).
+//@ func (*service).processPublish
+//@   results err
+//@   requires vdefProc(p) && msg != nil && len(msg.mtypeflags) == 1 && !msg.dirty && arr(msg.mtypeflags) != arr(p.qoss) && vdefQ(p.sess.Pub2in)
+//@   rely modifies p.out.pseq.cursor, p.out.pseq.gate, p.out.cseq.cursor, p.out.done, p.out.pwait, elems(p.out.buf)
+//@   rely ensures vdefRing(p.out) && arr(p.outtmp) != arr(p.out.buf)
+//@   ensures[C02:qos0] old(message.vspecQoSOf(msg.mtypeflags[0])) == 0 ==> gfield(p, "ndlv") == old(gfield(p, "ndlv"))+1 && gfield(p, "lastdlv") == msg && gfield(p, "n4") == old(gfield(p, "n4")) && gfield(p, "n5") == old(gfield(p, "n5"))
+//@   ensures[C02:qos1] old(message.vspecQoSOf(msg.mtypeflags[0])) == 1 ==> gfield(p, "n5") == old(gfield(p, "n5")) && gfield(p, "n4") <= old(gfield(p, "n4"))+1 && gfield(p, "ndlv") <= old(gfield(p, "ndlv"))+1
+//@   ensures[C02:qos1-ack] old(message.vspecQoSOf(msg.mtypeflags[0])) == 1 && (err == nil || gfield(p, "ndlv") != old(gfield(p, "ndlv"))) ==> gfield(p, "n4") == old(gfield(p, "n4"))+1 && gfield(p, "id4") == old(message.vspecPacketID(msg.packetID)) && gfield(p, "ndlv") == old(gfield(p, "ndlv"))+1 && gfield(p, "lastdlv") == msg
+//@   ensures[C02:qos2] old(message.vspecQoSOf(msg.mtypeflags[0])) == 2 ==> gfield(p, "ndlv") == old(gfield(p, "ndlv")) && gfield(p, "n4") == old(gfield(p, "n4")) && ((gfield(p, "n5") == old(gfield(p, "n5"))+1 && gfield(p, "id5") == old(message.vspecPacketID(msg.packetID)) && err == nil) || (gfield(p, "n5") == old(gfield(p, "n5")) && gfield(p, "wfail") == old(gfield(p, "wfail"))+1 && err != nil))
+//@   ensures[C02:qos2-stored] old(message.vspecQoSOf(msg.mtypeflags[0])) == 2 ==> gfield(p.sess.Pub2in, "nwait") == old(gfield(p.sess.Pub2in, "nwait"))+1 && gfield(p.sess.Pub2in, "lastwait") == msg && sessions.vdefAQ(p.sess.Pub2in)
+//@   ensures[C02:qos3] old(message.vspecQoSOf(msg.mtypeflags[0])) == 3 ==> err != nil && gfield(p, "ndlv") == old(gfield(p, "ndlv")) && gfield(p, "n4") == old(gfield(p, "n4")) && gfield(p, "n5") == old(gfield(p, "n5"))
+//@   ensures[inv] vdefOut(p)
+//@   modifies modset(Callback), modset(Out), p.subs, p.qoss, capelems(p.subs), modset(TopicStore), gfield(p, "ndlv"), gfield(p, "lastdlv"), gfield(p, "n4"), gfield(p, "id4"), gfield(p, "n5"), gfield(p, "id5")
